@@ -195,7 +195,9 @@ def tables(draw, profile='small', min_n=1, min_m=1):
 def wide_tables(draw):
     """n <= 6 rows and 60..140 columns (or transposed): multi-word bitsets, long zero runs."""
     n = draw(st.integers(1, 6))
-    m = draw(st.integers(60, 140))
+    # mostly 60..140; one in five beyond 256 (CPython small-int cache, four machine words)
+    m = draw(st.one_of(st.integers(60, 140), st.integers(60, 140), st.integers(60, 140), st.integers(60, 140),
+                       st.integers(257, 320)))
     kind = draw(st.sampled_from(['sparse', 'dense', 'edges', 'runs', 'random']))
     full = (1 << m) - 1
     rows = []
@@ -212,7 +214,8 @@ def wide_tables(draw):
                 r &= ~(1 << pos)
         elif kind == 'edges':
             r = 0
-            for pos in draw(st.lists(st.sampled_from([0, 1, 31, 32, 33, 62, 63, 64, 65, m - 2, m - 1]), max_size=5)):
+            for pos in draw(st.lists(st.sampled_from([0, 1, 31, 32, 33, 59, 60, 61, 62, 63, 64, 65, 127, 128, 129, 255, 256, 257,
+                                                      m - 2, m - 1]), max_size=5)):
                 if pos < m:
                     r |= 1 << pos
         else:  # runs
@@ -258,6 +261,8 @@ def argument_form(draw, members):
 
 
 def as_form(form, seq):
+    if form == 'str':
+        return ''.join(seq)
     if form == 'list':
         return list(seq)
     if form == 'tuple':
